@@ -56,13 +56,21 @@ CLAIMED = {
          "Writer output for every length (boundary set quick, 1..=2048 thorough) from starting sequences incl. the mod-64 wrap compared byte for byte with the reference segmenter and delivered through the real Reader (link Layer + Assembler) under several chunkings; all applications of <= 2 (3) mutation operators (drop, duplicate, swap, re-address, clear/set FIR, interleave a second sender, overflow, broadcast segment, skipped sequence number) to the segment streams of fragments of 1/249/250/498/747/2048 bytes into receive buffers 249/250/498/2048, each followed by a clean fragment: deliveries equal the reference reassembler's exactly, fragment ids consecutive.",
          "Trusted: engine segmenter / reassembler written from the statement. Operators are applied at five structural positions.",
          "DESIGN.md §5 C08", True),
+ "C09": ("exploration",
+         "exhaustive enumeration of a finite input space (all group/variation x qualifier x shape x completeness combinations; every request the master API builds; a corpus of outstation fragments and all their single-byte mutations) against an independent size table and object walker",
+         "(a) every request kind of the master API (incl. second steps of select-before-operate and both time synchronisations) and 48 outstation corpora covering every static and event variation of all eight types at sparse indices up to 65535 are decoded by the library parser and by the engine's walker, which must agree on function, flags, IIN, headers, counts and indices with an identical lazy second pass; (b) for every (group, variation) x qualifier x {READ, WRITE, RESPONSE} x 7 count/range shapes x {exact, -1, +1, header only}: acceptance implies the bytes are exactly what the reference size table says and iteration yields the declared objects; (c) all truncations, extensions and per-byte mutations of the corpus. Thorough: all 65 536 x 256 (group, variation, qualifier) triples (1.16e9 parses).",
+         "Trusted: the hand-written size table (IEEE 1815 Annex A). Count qualifiers on event groups are accepted as data-less 'limited count' headers in every function code. Object values are C10's subject.",
+         "DESIGN.md §5 C09", True),
+ "C10": ("exploration",
+         "exhaustive enumeration of a finite product (types x variations x boundary values x flag octets x timestamps x indices) through the real database, response writers and master extraction, against a 'what the variation can carry' reference",
+         "For each of the eight point types, each configured static variation and each event variation: 36 analog / 7 counter / all binary and double-bit values x flag octets (11 quick, 256 thorough) x 7 timestamps x index {0, 65535}; index sets; all orders of 3 events under a common-time-of-occurrence header (6 time differences incl. negative, mixed synchronisation). Real Database::update -> real OutstationTask response -> bytes -> (i) engine decoder (ii) library extract_measurements into a recording handler; both compared with the carry function (saturation + OVER_RANGE, truncation toward zero, f32 rounding, low 16 bits, packed only if plainly ONLINE, exact CTO reconstruction, never another index or another point's flags).",
+         "Trusted: engine object decoders. 2^48 timestamps and f64 values are covered by boundary menus, not enumerated.",
+         "DESIGN.md §5 C10", True),
 }
 
 NOT_YET = {
  "C01": "designed in DESIGN §5 C01 (hostile-input sweeps + session states); check not built yet",
  "C02": "designed in DESIGN §5 C02 (paired master/outstation simulation); check not built yet",
- "C09": "designed in DESIGN §5 C09; check not built yet",
- "C10": "designed in DESIGN §5 C10; check not built yet",
  "C15": "designed in DESIGN §5 C15; check not built yet",
  "C16": "designed in DESIGN §5 C16; check not built yet",
  "C17": "designed in DESIGN §5 C17; check not built yet",
